@@ -26,9 +26,24 @@ class _Default:
 _D = _Default()
 
 
+# ordinary user names that happen to be parameter names inside the library (names 60..)
+ODD = ["key", "args", "kwargs", "cls", "group", "spec", "result", "callback", "value", "name", "trigger_data",
+       "sm", "listeners", "func", "registry", "condition"]
+
+
 def pname(n):
     # names 50.. are the library's reserved keyword names (used by the machine-level shape)
+    if 60 <= n < 60 + len(ODD):
+        return ODD[n - 60]
     return RESERVED[n - 50] if 50 <= n < 58 else f"p{n}"
+
+
+def name_no(key):
+    if key in ODD:
+        return 60 + ODD.index(key)
+    if key in RESERVED:
+        return 50 + RESERVED.index(key)
+    return int(key[1:])
 
 
 def render_def(sc, fname="f", extra_first=None, is_async=False, indent=""):
@@ -82,8 +97,7 @@ def _encode(sig, received):
         if k == 2:
             out.append([n, ["tuple", list(v)]])
         elif k == 4:
-            out.append([n, ["dict", [[int(key[1:]) if key.startswith("p") else 50 + RESERVED.index(key), val]
-                                     for key, val in v.items()]]])
+            out.append([n, ["dict", [[name_no(key), val] for key, val in v.items()]]])
         else:
             out.append([n, ["one", v]])
     return out
@@ -307,7 +321,8 @@ def pair_case(rng):
 
 def machine_case(rng):
     n = rng.randint(1, 6)
-    pool = list(range(50, 58)) + [1, 2, 3]
+    odd = [60 + i for i in rng.sample(range(len(ODD)), 2)]
+    pool = list(range(50, 58)) + [1, 2, 3] + odd
     rng.shuffle(pool)
     names = pool[:n]
     kinds = sorted(rng.choice([1, 1, 1, 3, 3, 2, 4]) for _ in range(n))
@@ -328,7 +343,8 @@ def machine_case(rng):
             nm_ = 30 + k      # *args / **kwargs get plain names
         sig.append([nm_, k, d])
     sig.sort(key=lambda p: p[1])
-    kwn = [x for x in list(range(50, 58)) + [1, 2, 3, 20] if rng.random() < 0.35]
+    kwn = [x for x in list(range(50, 58)) + [1, 2, 3, 20] + sorted(set(odd + [60 + rng.randrange(len(ODD))]))
+           if rng.random() < 0.35]
     rng.shuffle(kwn)
     return {"sig": sig, "args": [100 + i for i in range(rng.randint(0, 3))],
             "kw": [[x, 200 + x] for x in kwn], "shape": "machine",
